@@ -81,4 +81,15 @@ let () =
       let (os, fin) = Model.c17_magic_session sha256 (vb cur) (List.map step_of (vl steps)) in
       ROk (VT [VL (List.map outcome_v os); VB fin]) | _ -> bad ());
   register "c17_network_magic" (function [n] -> ROk (opt (fun b -> VB b) (Model.c17_network_magic (vb n))) | _ -> bad ())
+let table_of (v : value) = List.map (fun e -> match vl e with [k; n] -> (vb k, vi n) | _ -> raise (Bad "table")) (vl v)
+let items_of (v : value) = List.map (fun it -> match vl it with [t; h] -> (vb t, vb h) | _ -> raise (Bad "item")) (vl v)
+let () =
+  register "c17_inventory_in" (function [t; n; h] -> of_result (fun b -> VB b) (Model.c17_inventory_in (table_of t) (vb n) (vb h)) | _ -> bad ());
+  register "c17_parse_inventory_in" (function [t; b] -> of_result inv_item_v (Model.c17_parse_inventory_in (table_of t) (vb b)) | _ -> bad ());
+  register "c17_parse_inv_payload_in" (function [t; b] -> of_result inv_v (Model.c17_parse_inv_payload_in (table_of t) (vb b)) | _ -> bad ());
+  register "c17_inv_rt_in" (function [t; c; items] ->
+      of_result (fun (p, r) -> VT [VB p; inv_v r]) (Model.c17_inv_rt_in (table_of t) (vi c) (items_of items)) | _ -> bad ());
+  register "c17_ser_recv_in" (function [cmds; fuel; magic; c; p; rest; sched] ->
+      of_result (fun (fr, ((((m, c'), p'), rest'), calls)) -> VT [VB fr; VT [VB m; VB c'; VB p'; VB rest'; VI calls]])
+        (Model.c17_ser_recv_in sha256 (List.map vb (vl cmds)) (vi fuel) (vb magic) (vb c) (vb p) (vb rest) (List.map vi (vl sched))) | _ -> bad ())
 
